@@ -194,7 +194,7 @@ def run_symbolic(unit, z3_ms=10000, cvc5_ms=20000, both=False, exclude_contracts
                 engine.discharge(o, z3_ms * 4, cvc5_ms * 2, False)
             ts += o.secs
             out['obligations'].append({'label': o.label, 'status': o.status, 'solver': o.solver, 'secs': round(o.secs, 4),
-                                       'model': o.model, 'kind': o.meta.get('kind', 'post'), 'detail': o.detail,
+                                       'model': o.model, 'ghost': getattr(o, 'ghost', None), 'kind': o.meta.get('kind', 'post'), 'detail': o.detail,
                                        'meta': {k: (v if isinstance(v, (int, str, bool, float, type(None))) else repr(v)) for k, v in o.meta.items() if not k.startswith('_')}})
         out['solver_secs'] = round(ts, 3)
         for q in unit.functions:
